@@ -826,7 +826,11 @@ def _(I, ctx, r):
     elif isinstance(old, HMap): r.set(HMap())
     elif isinstance(old, HSet): r.set(HSet())
     elif isinstance(old, Agg) and old.name == 'Option': r.set(NONE())
-    else: raise Unsupported('mem::take of ' + repr(old)[:60])
+    else:
+        m = re.match(r'^(?:std|core)::mem::take::<(.*)>$', ctx.cur_raw or '')
+        key = I.norm_key(f'<{m.group(1)} as Default>::default') if m else None
+        if key is None or I.resolve_static(ctx.cur_crate, key) is None: raise Unsupported('mem::take of ' + repr(old)[:60])
+        r.set(I.call(ctx, ctx.cur_crate, key, []))
     return old
 @model('std::mem::swap', 'core::mem::swap')
 def _(I, ctx, a, b):
